@@ -81,6 +81,11 @@ func (fe *FnEnc) call(ins ssa.Instruction, c *ssa.CallCommon, rt types.Type) Val
 	}
 	cv := fe.val(c.Value)
 	switch f := cv.Fn.(type) {
+	case noopFn:
+		if rt == nil {
+			return Val{}
+		}
+		return fe.freshVal("noop", rt)
 	case *ssa.Builtin:
 		return fe.builtin(f, c, args, rt, pos)
 	case *ssa.Function:
@@ -191,7 +196,7 @@ func (fe *FnEnc) staticCall(f *ssa.Function, bindings []Val, args []Val, rt type
 		inlinable := (fe.g.inlineForReplay || ct.Opts["inline"] == "always") && !ct.Trusted && f.Blocks != nil && fe.g.inRepo(f) && !fe.onStack(f) && fe.depth < maxInlineDepth
 		if !inlinable {
 			fe.top.staticContractCalls++
-			return fe.useContract(ct, args, rt, pos, key)
+			return fe.useContractFn(ct, f, args, rt, pos, key)
 		}
 		return fe.inline(f, bindings, args, rt)
 	}
@@ -353,6 +358,16 @@ func (fe *FnEnc) externModel(key string, f *ssa.Function, args []Val, rt types.T
 	case "sync.RWMutex.RUnlock":
 		fe.lockOp(args[0], "runlock", pos)
 		return Val{}, true
+	case "context.WithTimeout", "context.WithCancel", "context.WithDeadline":
+		// a derived context and its cancel function (calling it has no effect on modelled state)
+		n := s.fresh("ctx", "Int")
+		s.assert("(not (= " + n + " 0))")
+		tup := rt.(*types.Tuple)
+		return Val{T: rt, Tup: []Val{{T: tup.At(0).Type(), Term: n}, {T: tup.At(1).Type(), Fn: noopFn{}}}}, true
+	case "context.Background", "context.TODO":
+		n := s.fresh("ctx", "Int")
+		s.assert("(not (= " + n + " 0))")
+		return Val{T: rt, Term: n}, true
 	case "bytes.Compare":
 		// lexicographic comparison: an uninterpreted function of the two sequences with values -1, 0, 1
 		a, b := fe.valTerm(args[0]), fe.valTerm(args[1])
@@ -631,6 +646,10 @@ func (fe *FnEnc) bindNames(ct *Contract, hasRecv bool, args []Val) map[string]Va
 }
 
 func (fe *FnEnc) useContract(ct *Contract, args []Val, rt types.Type, pos token.Pos, key string) Val {
+	return fe.useContractFn(ct, nil, args, rt, pos, key)
+}
+
+func (fe *FnEnc) useContractFn(ct *Contract, callee *ssa.Function, args []Val, rt types.Type, pos token.Pos, key string) Val {
 	s := fe.s
 	top := fe.top
 	hasRecv := ct.Recv != ""
@@ -686,9 +705,22 @@ func (fe *FnEnc) useContract(ct *Contract, args []Val, rt types.Type, pos token.
 	}
 	// allocation watermarks may grow (unless the callee is declared allocation-free)
 	noalloc := ct.Opts["noalloc"] != ""
+	var may map[string]bool
+	if callee != nil && !ct.Trusted {
+		may = fe.g.mayAlloc(callee)
+	}
+	canAlloc := func(nextKey string) bool {
+		if may == nil || may["*"] {
+			return true
+		}
+		return may[strings.TrimPrefix(nextKey, "next_")]
+	}
 	for _, k := range sortedKeys(fe.mem.ghost) {
 		if noalloc {
 			break
+		}
+		if strings.HasPrefix(k, "next_") && !canAlloc(k) {
+			continue
 		}
 		if strings.HasPrefix(k, "next_") {
 			n := s.fresh("nx", "Int")
@@ -702,6 +734,9 @@ func (fe *FnEnc) useContract(ct *Contract, args []Val, rt types.Type, pos token.
 		}
 		if strings.HasPrefix(k, "G0_next_") {
 			gk := strings.TrimPrefix(k, "G0_")
+			if !canAlloc(gk) {
+				continue
+			}
 			if _, ok := fe.mem.ghost[gk]; !ok {
 				n := s.fresh("nx", "Int")
 				s.assert("(>= " + n + " " + k + ")")
@@ -835,3 +870,6 @@ func (fe *FnEnc) calleeWritesCheck(ct *Contract, pos token.Pos) {
 	fe.check("lock:callee-writes", fmt.Sprintf("@%d.%s", top.sites["lock:callee-writes"], ct.Name), "(= (select "+cur+" "+rv.Term+") 2)",
 		"call of "+ct.Name+" (which mutates guarded state) with the exclusive lock held", pos)
 }
+
+// noopFn is a function value whose call has no effect on modelled state (context cancel functions).
+type noopFn struct{}
